@@ -66,6 +66,11 @@ inductive Stmt
   | view (dst src : Nat) (c : Cond)
   /-- `np.zeros / ones / empty / zeros_like` -/
   | alloc (dst : Nat) (dt : DType)
+  /-- `grid.dtype = d` on a Grid ARGUMENT (`self._data = self._data.astype(d)`): the caller's object now holds a
+      converted array. The local keeps denoting "the cell data of that caller object" — the same caller buffer,
+      whichever ndarray holds it now — with the new dtype, C-contiguous; cell values are kept. A later write
+      through it is a write to the caller's grid. On a private buffer it is a plain conversion. -/
+  | retype (x : Nat) (dt : DType)
   /-- Python-level in-place write into the buffer of `x` (`x.fill(v)`, `x[idx] = v`, `x += v`) -/
   | pywrite (x : Nat)
   /-- call of a C kernel through the Cython layer (which never copies): per argument, the local passed
@@ -115,6 +120,7 @@ def step (st : State) : Stmt → State
                      next := st.next + 1 }
   | .alloc d dt =>
       { st with env := upd st.env d ⟨.fresh st.next, freshKind dt⟩, next := st.next + 1 }
+  | .retype x dt => { st with env := upd st.env x ⟨(st.env x).buf, freshKind dt⟩ }
   | .pywrite x => { st with written := (st.env x).buf :: st.written }
   | .kernel name args =>
       { st with
@@ -148,6 +154,7 @@ def safeFrom (allowed : List Nat) (a : Abs) : Program → Bool
   | .copy d _ _ :: p => safeFrom allowed (absUpd a d none) p
   | .alloc d _ :: p => safeFrom allowed (absUpd a d none) p
   | .view d s _ :: p => safeFrom allowed (absUpd a d (a s)) p
+  | .retype _ _ :: p => safeFrom allowed a p
   | .pywrite x :: p =>
       (match a x with | none => true | some r => allowed.contains r) && safeFrom allowed a p
   | .kernel _ args :: p =>
@@ -202,6 +209,7 @@ def mstep {α} (sem : Sem α) (ms : MState α) (s : Stmt) : MState α :=
       if c.sat e.kind then ⟨step st s, ms.mem⟩
       else ⟨step st s, memSet ms.mem (.fresh st.next) (sem.cast c.dt (ms.mem e.buf))⟩
   | .alloc _ dt => ⟨step st s, memSet ms.mem (.fresh st.next) (sem.zero dt)⟩
+  | .retype _ _ => ⟨step st s, ms.mem⟩            -- contents = cell values: kept by the conversion
   | .pywrite x =>
       let b := (st.env x).buf
       ⟨step st s, memSet ms.mem b (sem.pyval (ms.mem b))⟩
@@ -406,25 +414,25 @@ def intersect : Program :=
     kernel "cell2rowcol" [(16, R), (17, W)] ]
 
 /-- grid.delineate_river(flowdir, idxupstream) — grid.py:1566.  0 = flowdir data, 1 = FLOWDIRCODE.
-`flowdir.dtype = np.int64` rebinds the grid's array to a converted copy -/
+`flowdir.dtype = np.int64` converts the caller's grid: the kernel reads the caller's (converted) cells -/
 def delineateRiver : Program :=
-  [ copy 0 0 (some i64),
+  [ retype 0 i64,
     alloc 10 i64, copy 10 10 none,
     alloc 11 f64, alloc 12 i64,
     kernel "delineate_river" [(1, R), (0, R), (12, W), (10, W), (11, W)] ]
 
 /-- grid.accumulate(flowdir, to_accumulate) — grid.py:1625.  0 = flowdir data, 1 = to_accumulate data, 2 = FLOWDIRCODE -/
 def accumulate : Program :=
-  [ copy 0 0 (some i64),                        -- flowdir.dtype = np.int64
-    copy 1 1 (some f64),                        -- to_accumulate.dtype = np.float64
+  [ retype 0 i64,                               -- flowdir.dtype = np.int64
+    retype 1 f64,                               -- to_accumulate.dtype = np.float64
     copy 10 1 none,                             -- accumulation = to_accumulate.clone()
     kernel "accumulate" [(2, R), (0, R), (1, R), (10, W)] ]
 
 /-- the same with `to_accumulate=None`: a clone of flowdir filled with 1 -/
 def accumulateDefault : Program :=
-  [ copy 0 0 (some i64),
+  [ retype 0 i64,
     copy 1 0 none, pywrite 1,                   -- flowdir.clone(); .fill(1)
-    copy 1 1 (some f64),
+    retype 1 f64,                               -- on the private clone
     copy 10 1 none,
     kernel "accumulate" [(2, R), (0, R), (1, R), (10, W)] ]
 
@@ -437,7 +445,7 @@ def voronoi : Program :=
 
 /-- grid.slope(flowdir, altitude) — grid.py:1757.  0 = flowdir data, 1 = altitude data, 2 = FLOWDIRCODE -/
 def slope : Program :=
-  [ copy 0 0 (some i64), copy 1 1 (some f64),
+  [ retype 0 i64, retype 1 f64,                 -- flowdir.dtype = np.int64; altitude.dtype = np.float64
     copy 10 1 none, pywrite 10,                 -- altitude.clone(); .fill(nodata)
     kernel "slope" [(2, R), (0, R), (1, R), (10, W)] ]
 
@@ -461,6 +469,12 @@ def andersonDarlingAsarray : Program :=
     alloc 10 f64,
     kernel "ad_test" [(0, W), (10, W)] ]
 
+/-- `accumulate` with a kernel that stores into the flow-direction buffer (e.g. to cut a circular path):
+the buffer is the caller's grid (converted in place by `flowdir.dtype = np.int64`), not a private copy -/
+def accumulateWritesFlowdir : Program :=
+  [ retype 0 i64, retype 1 f64, copy 10 1 none,
+    kernel "accumulate" [(2, R), (0, W), (1, R), (10, W)] ]
+
 /-- `putils.kde` as pinned (pure Python, no kernel): `xy = np.asarray(xy)` … `xy += jitter` -/
 def kdePinned : Program := [ view 0 0 anyLayout, pywrite 0 ]
 /-- … and with the copy added by the fix -/
@@ -478,6 +492,7 @@ def wrappers : List (String × Program) :=
     ("accumulate", accumulate), ("accumulate_default", accumulateDefault), ("voronoi", voronoi),
     ("slope", slope), ("points_inside_polygon", pointsInsidePolygon),
     ("points_inside_polygon_out", pointsInsidePolygonOut),
-    ("anderson_darling_test_asarray", andersonDarlingAsarray), ("kde_pinned", kdePinned), ("kde_fixed", kdeFixed) ]
+    ("anderson_darling_test_asarray", andersonDarlingAsarray),
+    ("accumulate_writes_flowdir", accumulateWritesFlowdir), ("kde_pinned", kdePinned), ("kde_fixed", kdeFixed) ]
 
 end HydroVerif.C18
